@@ -23,7 +23,7 @@ ASSUMPTIONS = hc.COMMON_ASSUMPTIONS + [
 BOUNDS = {"points": 3}
 from .c01 import h_wide  # noqa: E402
 
-HARNESS = {"h_update": hc.h_update, "h_update2": hc.h_update2, "h_wide": h_wide}
+HARNESS = {"h_update": hc.h_update, "h_update2": hc.h_update2, "h_wide": h_wide, "h_inv": hc.h_inv}
 
 UPDS = {
     "field=sym": {"fields": {"f": SYM}},
@@ -65,11 +65,13 @@ def obligations(tier):
     th = tier == "thorough"
     obs = []
     for uname, u in UPDS.items():
-        for q in QS if th else [B, C, A, ("not", C), ("and", B, ("not", C)), ("and", ("not", C), B)]:
+        for q in QS[:8] if th else [B, C, A, ("not", C), ("and", B, ("not", C)), ("and", ("not", C), B)]:
             for cname, ai, rx in CONFIGS if th else CONFIGS[:2]:
                 core = q == B and cname == "ai" and uname != "all_at_once"
+                # thorough: three points for the three basic queries under every configuration, two for the rest
+                big = core or (th and q in (B, C, A) and uname != "all_at_once")
                 obs.append(
-                    _ob(f"upd/{uname}/{q_repr(q)}/{cname}", q=q, upd=u, ai=ai, reindex=rx, alpha="sel", n=3 if (th or core) else 2, torder="sym" if ("time" in attrs(q) or "time" in u) else "ooo", split_op=True, budget=300 if th else 60)
+                    _ob(f"upd/{uname}/{q_repr(q)}/{cname}", q=q, upd=u, ai=ai, reindex=rx, alpha="sel", n=3 if big else 2, torder="sym" if ("time" in attrs(q) or "time" in u) else "ooo", split_op=True, budget=300 if th else 60)
                 )
         for cname, ai, rx in CONFIGS[:2]:
             obs.append(_ob(f"update_all/{uname}/{cname}", upd=u, all=True, ai=ai, reindex=rx, alpha="sel", n=3 if th else 2, torder="sym" if "time" in u else "ooo"))
@@ -96,16 +98,34 @@ def obligations(tier):
     for kind in ("upd", "upd_tags"):
         for cname, ai, rx in CONFIGS[:2] + [("manual-pre", False, False)]:
             obs.append({"id": f"wide/{kind}/{cname}", "harness": "h_wide", "params": {"kind": kind, "ai": ai, "reindex_pre": cname == "manual-pre", "n": 10 if th else 9}, "budget_s": 120 if not th else 600, "presets": {}})
+    # multi-operation histories around an update: [X, update, Y]
+    updates = ["upd", "upd_tags", "upd_tags_new", "upd_meas", "upd_unset", "upd_time", "upd_time_cb", "upd_handle", "updall", "updall_handle"]
+    before = ["ins", "insm", "rm_tag_ne", "upd_tags", "upd_time", "read", "reindex", "ins_notime"]
+    after = ["ins", "upd_tags", "rm_tag", "read_tag", "upd_fail"]
+    seq = []
+    for u in updates:
+        for x in before:
+            for y in after:
+                for ai in (True, False):
+                    ops = [hc.OPLIB[o] for o in ("ins", "ins", x, u, y)]
+                    seq.append({"id": f"seq/{'ai' if ai else 'noai'}/ins,ins,{x},{u},{y}", "harness": "h_inv", "params": {"ops": ops, "ai": ai, "alpha": "sel", "also": ["tag", "meas"] if ("handle" in u or u == "upd_meas") else ["tag"], "torder": hc.seq_torder(("ins", "ins", x, u, y))}, "budget_s": 120 if not th else 600, "presets": {}})
+    obs.extend(hc.thin(seq, 270 if th else 36))
     obs.append(_ob("upd-op/tag", q=("tag", "k", OP, SYM), upd=UPDS["field=sym"], ai=True, alpha="small", n=3 if th else 2, torder="ooo", split_op=True))
     obs.append(_ob("upd-op/field", q=("field", "f", OP, SYM), upd=UPDS["tag=sym"], ai=True, alpha="sel", n=3 if th else 2, torder="ooo", split_op=True))
     obs.append(_ob("upd-op/time", q=("time", OP, SYM), upd=UPDS["time+1s"], ai=True, alpha="sel", n=3, torder="sym", split_op=True))
-    for uname in ("field=sym", "tag=sym", "time=sym", "meas=n", "unset_tag", "set+unset_field", "tags_callable_merge") + (tuple(UPDS) if th else ()):
-        for q in (B, ("time", OP, SYM)) + ((C,) if th else ()):
+    csv_core = ("field=sym", "tag=sym", "time=sym", "meas=n", "unset_tag", "set+unset_field", "tags_callable_merge")
+    seen = set()
+    for uname in csv_core + (tuple(UPDS) if th else ()):
+        if uname in seen:
+            continue
+        seen.add(uname)
+        extra = uname not in csv_core  # thorough only: every other update spec, tag query, two points
+        for q in ((B,) if extra else (B, ("time", OP, SYM)) + ((C,) if th else ())):
             for cname, ai, rx in CONFIGS[:2]:
-                obs.append(_ob(f"csv/upd/{uname}/{q_repr(q)}/{cname}", q=q, upd=UPDS[uname], ai=ai, storage="csv", n=3 if th else 2, alpha="sel", reopen=(cname == "scan"), split_op=True, budget=300 if th else 90))
+                obs.append(_ob(f"csv/upd/{uname}/{q_repr(q)}/{cname}", q=q, upd=UPDS[uname], ai=ai, storage="csv", n=3 if (th and not extra and q == B) else 2, alpha="sel", reopen=(cname == "scan"), split_op=True, budget=300 if th else 90))
     if th:
-        for uname, u in UPDS.items():
-            obs.append(_ob(f"n4/upd/{uname}", q=B, upd=u, ai=True, n=4, alpha="small", budget=900))
+        for uname in ("field=sym", "tag=sym", "time=sym", "unset_tag", "set+unset_field", "all_at_once"):
+            obs.append(_ob(f"n4/upd/{uname}", q=B, upd=UPDS[uname], ai=True, n=4, alpha="sel", budget=600))
     obs.append(_ob("twin/upd", q=B, upd=UPDS["field=sym"], ai=True, alpha="sel", twin=True))
     obs.append(_ob("twin/update_all", upd=UPDS["unset_tag"], all=True, ai=True, alpha="sel", twin=True))
     return _split(obs)
